@@ -18,6 +18,7 @@ use swc_vue_jsx_visitor::Options;
 
 pub const WORKER_STACK: usize = 64 << 20;
 pub const SOLO_STEP_CAP: u32 = 50_000;
+pub const SOLO_SITES_KEPT: usize = 8_000;
 
 #[derive(Clone, Copy, PartialEq, Eq, Debug)]
 enum Holder {
@@ -657,7 +658,15 @@ pub fn solo_here(task: &PlanTask, key_seed: u64) -> SoloResult {
         .spawn(move || {
             seams::set_thread_keyseed(key_seed);
             let r = run_task(&j, 0, None, true);
-            SoloResult { outcome: r.outcome, steps: r.steps, sites: r.sites.unwrap_or_default().into_iter().map(String::from).collect(), residue: r.residue }
+            // the site list feeds the systematic sweeps, which only use tasks that returned; it is
+            // capped so that a tree on which thousands of tasks run into the step cap cannot blow
+            // the solo table up to gigabytes
+            let sites: Vec<String> = if matches!(r.outcome, Outcome::Returned(_)) {
+                r.sites.unwrap_or_default().into_iter().take(SOLO_SITES_KEPT).map(String::from).collect()
+            } else {
+                vec![]
+            };
+            SoloResult { outcome: r.outcome, steps: r.steps, sites, residue: r.residue }
         })
         .expect("spawn solo thread")
         .join()
